@@ -98,20 +98,19 @@ def run_lane(v, progs, tier, prop):
     traces = pmap(one, jobs, chunksize=8)
     if len(traces) < 20:
         raise Machinery(f"system lane: only {len(traces)} programs")
-    # canary: a good trace is accepted; the same trace with the first decoded command moved by one word is rejected
-    good = next((t for t in traces if t["ev"][-1].get("ev") == "Accept"), None)
-    if good is None:
-        raise Machinery("system lane: no program went through (canary impossible): " + json.dumps(traces[0]["ev"][-3:])[:600])
-    bad = json.loads(json.dumps(good))
-    bad["id"] = "sys-canary-bad"
-    c = next(e for e in bad["ev"] if e.get("ev") == "Cmd")
-    c["addr"] = [c["addr"][0], (c["addr"][1] + 4) % 65536]
-    g2 = json.loads(json.dumps(good))
-    g2["id"] = "sys-canary-good"
-    rej, _ = tlc.tv("SYS", "SbLoadTrace", [strip(g2), strip(bad)], libs=LIBS)
-    if set(rej) != {"sys-canary-bad"}:
-        raise Machinery(f"system lane canary failed: rejected {sorted(rej)}")
     rej, res = tlc.tv("SYS", "SbLoadTrace", [strip(t) for t in traces], libs=LIBS, heap="8g", timeout=1200)
+    # canary on a trace the composition ACCEPTED: the same trace with the first decoded command moved by one word must be rejected
+    good = next((t for t in traces if t["id"] not in rej and t["ev"][-1].get("ev") == "Accept"), None)
+    if good is not None:
+        bad = json.loads(json.dumps(good))
+        bad["id"] = "sys-canary-bad"
+        c = next(e for e in bad["ev"] if e.get("ev") == "Cmd")
+        c["addr"] = [c["addr"][0], (c["addr"][1] + 4) % 65536]
+        g2 = json.loads(json.dumps(good))
+        g2["id"] = "sys-canary-good"
+        crej, _ = tlc.tv("SYS", "SbLoadTrace", [strip(g2), strip(bad)], libs=LIBS)
+        if set(crej) != {"sys-canary-bad"}:
+            raise Machinery(f"system lane canary failed: rejected {sorted(crej)}")
     soft = {}
     for x in res.tuples("SOFT"):
         soft.setdefault(x[0], []).append(x[1])
